@@ -83,13 +83,13 @@ type c02Case struct {
 	Pattern int    `json:"pattern"`
 	SenderI bool   `json:"sender_initiator"`
 	// receiver configuration
-	RSuite   int  `json:"rsuite"`
-	RPattern int  `json:"rpattern"`
-	RRoleI   bool `json:"receiver_initiator"`
-	ParseH   bool `json:"parsed_header"`
-	Input    string `json:"input_hex"`
-	Class    string `json:"class"`
-	Warm     bool   `json:"warm"` // the receiver's key object has just accepted the genuine message (history on one SA object)
+	RSuite   int      `json:"rsuite"`
+	RPattern int      `json:"rpattern"`
+	RRoleI   bool     `json:"receiver_initiator"`
+	ParseH   bool     `json:"parsed_header"`
+	Input    string   `json:"input_hex"`
+	Class    string   `json:"class"`
+	Warm     bool     `json:"warm"`        // the receiver's key object has just accepted the genuine message (history on one SA object)
 	Genuine  []string `json:"genuine_hex"` // the genuine messages this input must differ from
 }
 
@@ -145,6 +145,9 @@ func c02Messages(thorough bool) []univ.Inst {
 			out = append(out, a)
 		}
 	}
+	// one large message (more than 1024 encrypted octets): a receiver that treats large datagrams differently
+	// (e.g. overlaps verification and decryption) shows only here
+	out = append(out, univ.Inst{Name: "CERT.len=1100", P: ref.Payload{T: ref.PCERT, B: 4, Data: univ.Pat(1100, 7)}})
 	return out
 }
 
